@@ -12,6 +12,7 @@ ID = "C05"
 RULE = ("cases: composition-dependent curve sets (1..3 temperatures x 3..7 points, built from permeances or fluxes, mass or mole fractions, "
         "+-2% noise) x orders n<=2, m<=1 x with/without initial permeances (kg, SI or GPU) x with/without zero points x modelling temperature "
         "equal to / different from the curve temperature x 3 permeate modes x isothermal / self-cooling / programme process (1..6 steps) and "
+        "the non-ideal diffusion curve; reference fits come from a curve set rebuilt from the case (never the object handed to the model). "
         "the non-ideal diffusion curve. non-trivial = model returned, >= 2 steps and a fitted function varies by > 1% over the visited states; "
         "distinct = SHA-1 of the case JSON")
 ASSUMPTIONS = ["reference fits = the public find_best_fit on Measurements extracted from the same curve set with the same orders (fits are deterministic)",
